@@ -151,6 +151,23 @@ static void case_set(ByteSource& in, CaseInfo& ci) {
   else { uint64_t bits = in.u64(); if (in.flag()) bits = (bits & 0x800fffffffffffffull) | ((uint64_t)in.range(1, 2046) << 52); if (((bits >> 52) & 0x7ff) == 0x7ff) bits &= ~(1ull << 62); double dv; memcpy(&dv, &bits, 8); int ex; double m = std::frexp(dv, &ex); Int mant((long long)std::ldexp(m, 53)); X = Ex{mant, Int(1), (long)ex - 53}; if (mant.is_zero()) X.ex = 0; ci.nontrivial = dv != 0; ci.d("mpf_set_d d=%a ", dv); mpf_set_d(d.r.f, dv); }
   judge(names[f], d.r.f, X, p, opfit, ci); finish_dest(d);
 }
+// default-precision family: mpf_set_default_prec + mpf_init / mpf_init_set / _ui / _si / _d / _str / mpf_inits: the new variable gets
+// at least the default precision and the value obeys the same accuracy / exactness rules
+static void case_init_set(ByteSource& in, CaseInfo& ci) {
+  unsigned f = in.pick({2, 2, 2, 2, 2, 1}); static const char* names[] = {"mpf_init_set", "mpf_init_set_ui", "mpf_init_set_si", "mpf_init_set_d", "mpf_init_set_str", "mpf_inits"}; ci.label(names[f]); ci.label("default_precision_family");
+  uint64_t want = gen_prec(in); mpf_set_default_prec(want); uint64_t dp = mpf_get_default_prec(); REQUIRE(dp >= want, "mpf_get_default_prec() = %llu after mpf_set_default_prec(%llu)", (unsigned long long)dp, (unsigned long long)want);
+  mpf_t x; Ex X; bool opfit = true; ci.nontrivial = true; ci.d("%s default_prec=%llu ", names[f], (unsigned long long)want);
+  if (f == 0) { F a; uint64_t pa = gen_prec(in); gen_operand(in, a, pa, (long)in.srange(-2, 3), ci); X = Ex{a.v.m, Int(1), a.v.e}; opfit = fitsp(a.v, dp); mpf_init_set(x, a.f); }
+  else if (f == 1) { uint64_t u = in.flag() ? in.u64() : in.range(0, 100); X = Ex{Int::from_u64(u), Int(1), 0}; mpf_init_set_ui(x, u); }
+  else if (f == 2) { int64_t v = in.flag() ? (int64_t)in.u64() : in.srange(-100, 100); if (in.chance(20)) v = INT64_MIN; X = Ex{Int((long long)v), Int(1), 0}; mpf_init_set_si(x, v); }
+  else if (f == 3) { uint64_t bits = in.u64(); if (((bits >> 52) & 0x7ff) == 0x7ff) bits &= ~(1ull << 62); double dv; memcpy(&dv, &bits, 8); int ex; double m = std::frexp(dv, &ex); Int mant((long long)std::ldexp(m, 53)); X = Ex{mant, Int(1), (long)ex - 53}; if (mant.is_zero()) X.ex = 0; ci.d("d=%a ", dv); mpf_init_set_d(x, dv); }
+  else if (f == 4) { long long iv = (long long)in.srange(-1000000000000ll, 1000000000000ll); unsigned sh = (unsigned)in.range(0, 40); std::string t = std::to_string(iv) + "e" + std::to_string(sh); Int num = Int(iv); for (unsigned i = 0; i < sh; i++) num = num * Int(10); X = Ex{num, Int(1), 0};
+    int rc = mpf_init_set_str(x, t.c_str(), 10); REQUIRE(rc == 0, "mpf_init_set_str(\"%s\") returned %d", t.c_str(), rc); ci.d("str=%s ", t.c_str()); }
+  else { mpf_t y; mpf_inits(x, y, (mpf_ptr)0); REQUIRE(mpf_get_prec(y) >= want && y->_mp_size == 0, "mpf_inits: second variable has precision %llu (default %llu) or is not zero", (unsigned long long)mpf_get_prec(y), (unsigned long long)want); mpf_clears(y, (mpf_ptr)0); X = Ex{Int(0), Int(1), 0}; }
+  struct Clr { mpf_ptr p; ~Clr() { mpf_clear(p); } } clr{x};
+  uint64_t p = mpf_get_prec(x); REQUIRE(p >= want, "%s: new variable has precision %llu, default precision is %llu", names[f], (unsigned long long)p, (unsigned long long)want);
+  judge(names[f], x, X, p, opfit, ci);
+}
 static void case_exactfn(ByteSource& in, CaseInfo& ci) {
   unsigned f = in.pick({3, 3, 3, 2, 2, 3, 3}); static const char* names[] = {"mpf_floor", "mpf_ceil", "mpf_trunc", "mpf_neg", "mpf_abs", "mpf_mul_2exp", "mpf_div_2exp"}; ci.label(names[f]);
   F a, r; uint64_t pa = gen_prec(in); gen_operand(in, a, pa, (long)in.srange(-1, 4), ci); r.mk(pa);   // destination with the operand's precision: the result is then exactly representable
@@ -229,9 +246,9 @@ static void fixed_case(unsigned k, CaseInfo& ci) {
     REQUIRE(dcmpabs(err, unit) <= 0, "mpf_get_str(base=53, n_digits=22): \"%s\" exp %ld is more than one unit of the last requested digit away from the operand", ds.c_str(), (long)ex);
   }
 }
-static void check(ByteSource& in, CaseInfo& ci) { switch (in.pick({10, 3, 4, 4, 5})) { case 0: case_arith(in, ci); break; case 1: case_set(in, ci); break; case 2: case_exactfn(in, ci); break; case 3: case_set_str(in, ci); break; default: case_get_str(in, ci); break; } }
+static void check(ByteSource& in, CaseInfo& ci) { if (in.chance(12)) { case_init_set(in, ci); return; } switch (in.pick({10, 3, 4, 4, 5})) { case 0: case_arith(in, ci); break; case 1: case_set(in, ci); break; case 2: case_exactfn(in, ci); break; case 3: case_set_str(in, ci); break; default: case_get_str(in, ci); break; } }
 namespace eng {
 PropDef g_prop = {"C13",
-  "Cases: one call of mpf_add/sub/mul/div/sqrt and their _ui forms, mpf_set_q/set_z/set_d, mpf_set_str, mpf_floor/ceil/trunc/neg/abs/mul_2exp/div_2exp, mpf_get_str. Destination precision 1..2000 bits chosen independently of the operand precisions (shorter and longer), reached directly, through mpf_set_prec after another value, or through mpf_set_prec_raw (restored afterwards); the destination may alias an operand; operands are built limb by limb (up to prec+1 limbs, low zero limbs, all ones, single bit), with exponent relations no overlap / partial / full / far apart and nearly cancelling pairs for add/sub. Oracle: an mpf value is the exact dyadic rational mantissa*2^(64*(exp-size)) in refint; with p = mpf_get_prec(rop): |result-exact| < 2^(2-p)*|exact| (sqrt by squaring both bounds), result == exact whenever the operands and the exact value each fit in p bits, exact functions compared exactly, mpf_get_str: at most n_digits digits, no trailing zeros, right alphabet, value within one unit of the last requested digit (n_digits never exceeds what the precision carries); the format rules (|size| <= prec+1, top limb non-zero, zero has exponent 0) after every call. Non-trivial: non-zero first operand. Distinct = hash of all decoded choices.",
+  "Cases: one call of mpf_add/sub/mul/div/sqrt and their _ui forms, mpf_set_q/set_z/set_d, mpf_set_str, the default-precision family (mpf_set_default_prec then mpf_init_set/_ui/_si/_d/_str, mpf_inits: precision >= default, same value rules), mpf_floor/ceil/trunc/neg/abs/mul_2exp/div_2exp, mpf_get_str. Destination precision 1..2000 bits chosen independently of the operand precisions (shorter and longer), reached directly, through mpf_set_prec after another value, or through mpf_set_prec_raw (restored afterwards); the destination may alias an operand; operands are built limb by limb (up to prec+1 limbs, low zero limbs, all ones, single bit), with exponent relations no overlap / partial / full / far apart and nearly cancelling pairs for add/sub. Oracle: an mpf value is the exact dyadic rational mantissa*2^(64*(exp-size)) in refint; with p = mpf_get_prec(rop): |result-exact| < 2^(2-p)*|exact| (sqrt by squaring both bounds), result == exact whenever the operands and the exact value each fit in p bits, exact functions compared exactly, mpf_get_str: at most n_digits digits, no trailing zeros, right alphabet, value within one unit of the last requested digit (n_digits never exceeds what the precision carries); the format rules (|size| <= prec+1, top limb non-zero, zero has exponent 0) after every call. Non-trivial: non-zero first operand. Distinct = hash of all decoded choices.",
   check, nullptr, {"exact_clause", "bound_clause", "result_truncated", "near_cancellation", "x+1|000_minus_x|fff", "exponents_far_apart", "low_zero_limbs", "dest:set_prec", "dest:set_prec_raw", "dest_aliases_operand", "get_str:fewer_digits_than_requested"}, fixed_case};
 }
